@@ -71,10 +71,15 @@ pub fn transfer(c: &Case, rep: &mut Report) -> Result<&'static str, (String, Str
     let app_code = c.app_code;
     let get = move |mid: u16, path: &[&str], block2: Option<(u32, bool, u8)>| get_t(mtype, mid, path, block2);
     let app_opts = opts.clone();
+    // start state 2 runs the transfer under test on the two-segment resource /r/s, so that resources whose paths
+    // coincide with it once the segments are joined, re-split or reordered are really different keys
+    let two_segments = c.start == 2;
+    let tp: &[&str] = if two_segments { &["r", "s"] } else { &["r"] };
     let app = |call: &AppCall| -> AppReply {
         // the resource "r" serves the body under test, everything else serves another body
         let path: Vec<&[u8]> = call.request.options.iter().filter(|o| o.0 == 11).map(|o| &o.1[..]).collect();
-        if path.len() == 1 && path[0] == b"r" && call.ep == 1 && call.request.mid >= 1000 {
+        let on_test_path = if two_segments { path.len() == 2 && path[0] == b"r" && path[1] == b"s" } else { path.len() == 1 && path[0] == b"r" };
+        if on_test_path && call.ep == 1 && call.request.mid >= 1000 {
             AppReply { code: app_code, options: app_opts.clone(), payload: the_body.clone() }
         } else {
             AppReply { code: 0x45, options: vec![], payload: other_body.clone() }
@@ -113,10 +118,12 @@ pub fn transfer(c: &Case, rep: &mut Report) -> Result<&'static str, (String, Str
         2 => {
             // unfinished transfers under other keys (other path; other endpoint)
             srv.exchange(1, &get(next_mid(&mut mid), &["other"], None), &app);
-            srv.exchange(2, &get(next_mid(&mut mid), &["r"], None), &app);
-            // ... and under paths that differ from ["r"] only by an empty segment (different resources)
-            srv.exchange(1, &get(next_mid(&mut mid), &["r", ""], None), &app);
-            srv.exchange(1, &get(next_mid(&mut mid), &["", "r"], None), &app);
+            srv.exchange(2, &get(next_mid(&mut mid), tp, None), &app);
+            // ... and under paths that differ from the one under test only by an empty segment, by where the
+            // segment boundary lies, or by the order of the segments (different resources)
+            for other in [&["r", "s", ""][..], &["", "r", "s"], &["r", "", "s"], &["r/s"], &["rs"], &["r"], &["s"], &["s", "r"], &["r", "s", "s"], &["r", ""], &["", "r"]] {
+                srv.exchange(1, &get(next_mid(&mut mid), other, None), &app);
+            }
         }
         3 => {
             srv.exchange(1, &get(next_mid(&mut mid), &["r"], None), &app);
@@ -127,7 +134,7 @@ pub fn transfer(c: &Case, rep: &mut Report) -> Result<&'static str, (String, Str
     // ---- the transfer under test (message ids >= 1000 select the body under test)
     mid = 1000;
     let first_b2 = c.strat.early.map(|s| (0u32, false, s));
-    let x = srv.exchange(1, &get(mid, &["r"], first_b2), &app);
+    let x = srv.exchange(1, &get(mid, tp, first_b2), &app);
     rep.visit(&srv.snapshot());
     let mut received: Vec<u8> = Vec::new();
     let mut followups = 0usize;
@@ -232,7 +239,7 @@ pub fn transfer(c: &Case, rep: &mut Report) -> Result<&'static str, (String, Str
                 }
                 let next_num = (received.len() / rb::size(ask)) as u32;
                 mid += 1;
-                x = srv.exchange(1, &get(mid, &["r"], Some((next_num, false, ask))), &app);
+                x = srv.exchange(1, &get(mid, tp, Some((next_num, false, ask))), &app);
                 rep.visit(&srv.snapshot());
             }
         }
@@ -246,7 +253,7 @@ pub fn transfer(c: &Case, rep: &mut Report) -> Result<&'static str, (String, Str
     }
     let own_calls = srv.app_calls[calls_before..]
         .iter()
-        .filter(|c| c.ep == 1 && c.request.mid >= 1000 && c.request.options.iter().filter(|o| o.0 == 11).map(|o| &o.1[..]).collect::<Vec<_>>() == [b"r"])
+        .filter(|c| c.ep == 1 && c.request.mid >= 1000 && c.request.options.iter().filter(|o| o.0 == 11).map(|o| &o.1[..]).collect::<Vec<_>>() == tp.iter().map(|s| s.as_bytes()).collect::<Vec<_>>())
         .count();
     if own_calls != 1 {
         return Err(("C08/application-consulted-more-than-once".into(), format!("{} application calls for one transfer", own_calls)));
@@ -259,7 +266,7 @@ pub fn transfer(c: &Case, rep: &mut Report) -> Result<&'static str, (String, Str
     if !stale_possible {
         let szx = last_szx.unwrap_or(2);
         mid += 1;
-        let x = srv.exchange(1, &get(mid, &["r"], Some((0, false, szx))), &app);
+        let x = srv.exchange(1, &get(mid, tp, Some((0, false, szx))), &app);
         rep.visit(&srv.snapshot());
         if let Some((stage, pn)) = &x.panic {
             return Err((format!("C08/panic@{}", pn.site()), format!("{:?}: {}", stage, pn.message)));
@@ -352,7 +359,7 @@ pub fn run(ctx: &Ctx, rep: &mut Report) {
         ctx.family(
             rep,
             "A-every-length-small-blocks",
-            "budget = overhead+28 .. overhead+92 (every value: block sizes 16, 32 and 64 with every slack) x body length 0..=98 (every value) x 9 client strategies (no preference, early SZX 0/1/2/6, reductions at the 1st/2nd follow-up) x application option sets (request type CON/NON and response code 2.05/2.04/4.04 vary with the option set) x start states {fresh, completed transfer on the key, unfinished transfers on other keys, unfinished transfer on the key + start without Block2; thorough: 300 requests on other keys between block 0 and block 1}; each a complete transfer",
+            "budget = overhead+28 .. overhead+92 (every value: block sizes 16, 32 and 64 with every slack) x body length 0..=98 (every value) x 9 client strategies (no preference, early SZX 0/1/2/6, reductions at the 1st/2nd follow-up) x application option sets (request type CON/NON and response code 2.05/2.04/4.04 vary with the option set) x start states {fresh, completed transfer on the key, unfinished transfers on other keys (other endpoint; 12 other paths incl. ones that equal the two-segment path under test after joining, re-splitting or reordering segments), unfinished transfer on the key + start without Block2; thorough: 300 requests on other keys between block 0 and block 1}; each a complete transfer",
             n,
             true,
             |i, rep| {
